@@ -63,6 +63,9 @@ type Cfg struct {
 	Providers    []string `json:"providers"`
 	Preserve     []string `json:"preserve"`
 	WrapRemember bool     `json:"wrap_remember"` // remember.Middleware around the module routes too (global middleware chain)
+	// the application's stores answer ReadState with a nil ClientState for a client that has nothing stored
+	// (documented as legal); invisible to the model, where an absent state and an empty one are the same thing
+	NilState bool `json:"nil_state,omitempty"`
 	DefaultPaths bool     `json:"default_paths"` // Config.Paths' OK / NotOK targets left at authboss.New()'s defaults ("/")
 	OneTime      bool     `json:"onetime"`       // the user type implements totp2fa.UserOneTime (TOTP replay protection)
 }
@@ -109,8 +112,9 @@ type jar map[string]string
 func (j jar) Get(k string) (string, bool) { v, ok := j[k]; return v, ok }
 
 type jarRW struct {
-	mu   sync.Mutex
-	jars map[string]jar
+	mu       sync.Mutex
+	jars     map[string]jar
+	nilEmpty bool
 }
 
 func (rw *jarRW) get(b string) jar {
@@ -124,7 +128,11 @@ func (rw *jarRW) get(b string) jar {
 }
 
 func (rw *jarRW) ReadState(r *http.Request) (authboss.ClientState, error) {
-	return rw.get(r.Header.Get("X-Browser")), nil
+	j := rw.get(r.Header.Get("X-Browser"))
+	if rw.nilEmpty && len(j) == 0 {
+		return nil, nil
+	}
+	return j, nil
 }
 
 // WriteState applies the events exactly as the reference contract (Coq: apply_events)
@@ -332,7 +340,7 @@ var probeKeys = []string{"uid", "halfauth", "last_action", "twofactor", "twofact
 	"sms_pending", "w1", "w2"}
 
 func newWorld(cfg Cfg, seed int64) (*World, error) {
-	w := &World{cfg: cfg, be: &Backend{}, sess: &jarRW{jars: map[string]jar{}}, cook: &jarRW{jars: map[string]jar{}},
+	w := &World{cfg: cfg, be: &Backend{}, sess: &jarRW{jars: map[string]jar{}, nilEmpty: cfg.NilState}, cook: &jarRW{jars: map[string]jar{}, nilEmpty: cfg.NilState},
 		mail: &mailOut{}, log: &logCap{}, rnd: &recReader{src: mrand.New(mrand.NewSource(seed))}}
 	crand.Reader = w.rnd
 	w.st = newStore(w.be, cfg.Username)
